@@ -114,6 +114,11 @@ type c03TapCtx struct {
 }
 
 func (c c03TapCtx) OnMsg(msg base.RtmpMsg) {
+	// only the harness's own media probe counts: an RTSP publisher's remuxer emits sequence headers of its own shortly
+	// after ANNOUNCE was answered, and those may land inside another event's observation window
+	if !bytes.Equal(msg.Payload, []byte{0xaf, 0x01, 0x21, 0x10}) {
+		return
+	}
 	c.t.mu.Lock()
 	c.t.streams = append(c.t.streams, c.stream)
 	c.t.mu.Unlock()
